@@ -598,6 +598,15 @@ func (f *Fetcher) Set(k eval.VariableKey, s string, v eval.Value) error {
 }
 
 func (f *Fetcher) Cached(k eval.VariableKey, s string) bool {
+	if f.Keys != nil {
+		want, ok := f.Keys[s]
+		if !ok {
+			want = eval.UndefinedVarKey
+		}
+		if want != k {
+			f.Log.KeyErrs = append(f.Log.KeyErrs, fmt.Sprintf("Cached(%d,%q): registered key is %d", k, s, want))
+		}
+	}
 	if f.Avail == nil || f.DNEAsValue {
 		return true
 	}
